@@ -8,6 +8,10 @@ import (
 // files derives the file set from the description: page.vuego and one file per component.
 func files(c Case) map[string]string {
 	out := map[string]string{"page.vuego": emit(c.Page, c.Compact, c.Short) + emitHand(c)}
+	if c.After != "" {
+		f := failingVariant(c)
+		out["page_fail.vuego"] = emit(f.Page, f.Compact, f.Short) + emitHand(f)
+	}
 	if len(c.Layout) > 0 {
 		out["layouts/base.vuego"] = emit(c.Layout, c.Compact, c.Short)
 	}
